@@ -1,5 +1,6 @@
 SPECIFICATION Spec
 CONSTANTS
+  OnlySubst = FALSE
   MaxTok = 400
   NSubst = 78
 INVARIANT Emit
